@@ -163,8 +163,15 @@ def fp_bools(draw):
     srt = draw(st.sampled_from(fpcheck.SORTS))
     x = draw(st.one_of(st.just(("fvar", "f0_" + srt[0], srt)), fpcheck.fp_tree(srt, 1, True)))
     k = draw(st.integers(0, 5))
-    if k <= 2:
+    if k <= 1:
         return (draw(st.sampled_from(fpcheck.FP_CMP)), x, x)  # self comparison: wrong for NaN
+    if k == 2:
+        # a concrete special value on one side (NaN, infinities, signed zeros): folded while the expression is built
+        sp = ("fconst", draw(st.sampled_from(fpcheck.special_bits(srt))), srt)
+        other = draw(st.one_of(st.just(x), st.sampled_from(fpcheck.pool(srt)).map(lambda b: ("fconst", b, srt))))
+        a, b = (sp, other) if draw(st.booleans()) else (other, sp)
+        t = (draw(st.sampled_from(fpcheck.FP_CMP)), a, b)
+        return ("not", t) if draw(st.integers(0, 3)) == 0 else t
     if k == 3:
         return (draw(st.sampled_from(fpcheck.FP_CMP)), x, draw(fpcheck.fp_tree(srt, 1, True)))
     if k == 4:
@@ -194,6 +201,14 @@ def truth_scenarios(draw):
             hist.append({"op": "combine", "s": 0, "others": [1]})
     else:
         hist.append({"op": op, "s": 0})
+    if draw(st.booleans()):
+        # every variable enumerated to exhaustion on its own (the model cache then holds all values of each, not all combinations),
+        # then truth questions about relations BETWEEN the variables
+        for v in draw(st.permutations((x, y))):
+            hist.append(draw(st.sampled_from(({"op": "eval", "s": draw(st.sampled_from((1, 2, 3, 7))), "e": v, "n": 300, "extra": []},
+                                              {"op": "batch", "s": draw(st.sampled_from((1, 2, 3, 7))), "es": [v], "n": 300, "extra": []}))))
+        pool = pool + [("ne", ("bvadd", x, y), ("const", k1, W)), ("not", ("and", ("eq", x, ("const", k1, W)), ("eq", y, ("const", k2, W)))), ("ne", x, y), ("ult", x, y),
+                       ("eq", ("bvand", x, y), ("const", 0, W)), ("or", ("ne", x, ("const", k1, W)), ("ne", y, ("const", k2, W)))]
     for _ in range(draw(st.integers(2, 6))):
         e = draw(st.sampled_from(pool))
         if draw(st.integers(0, 3)) == 0:
